@@ -72,10 +72,12 @@ fn answer_class(a: &str) -> &'static str {
     else if a == "UNSATISFIABLE" || a == "TRIVIAL" { "constant" } else { "policy" }
 }
 
-fn one_ms<Pk: HKey, Ctx: ScriptContext>(out: &mut Out, ctx: CtxK, node: &Node) -> bool {
+fn one_ms<Pk: HKey, Ctx: ScriptContext>(out: &mut Out, ctx: CtxK, node: &Node, states: bool) -> bool {
     let ms: Miniscript<Pk, Ctx> = match ast::to_ms(node) { Ok(m) => m, Err(_) => { out.count("skipped not-accepted-by-from_ast"); return false } };
     let w = node.wire();
-    let ans = lift_answer(catch_unwind(AssertUnwindSafe(|| ms.lift())));
+    let r = catch_unwind(AssertUnwindSafe(|| ms.lift()));
+    let lifted: Option<Semantic<Pk>> = match &r { Ok(Ok(p)) => Some(p.clone()), _ => None };
+    let ans = lift_answer(r);
     out.count(&format!("lift {} {}", ctx.name(), if ans.starts_with("ERR:") { ans.as_str() } else { answer_class(&ans) }));
     out.line(&format!("C lift {} {}", ctx.name(), w), &ans);
     out.line(&format!("J liftsem {} {} {}", ctx.name(), w, ans), "ok");
@@ -83,10 +85,34 @@ fn one_ms<Pk: HKey, Ctx: ScriptContext>(out: &mut Out, ctx: CtxK, node: &Node) -
     if !ans.starts_with("ERR:") && ans != "PANIC" {
         out.line(&format!("J nf lift:{}:{} {}", ctx.name(), w, ans), "ok");
     }
+    // states of the lifted policy: normalized again, restricted to an age / a lock time - each
+    // must still say exactly when the script is spendable (in the worlds it was restricted to)
+    if let (true, Some(p)) = (states, lifted) {
+        let wire = |r: std::thread::Result<Semantic<Pk>>| match r { Ok(q) => sem_wire(&q), Err(_) => "PANIC".to_string() };
+        let q = wire(catch_unwind(AssertUnwindSafe(|| p.clone().normalized())));
+        out.line(&format!("J liftstate {} {} norm {}", ctx.name(), w, q), "ok");
+        let (mut af, mut ol) = (vec![], vec![]);
+        node.locks(&mut af, &mut ol);
+        let mut ages: Vec<u32> = vec![];
+        for n in &ol { let c = msops::rel_canon(*n); ages.push(c); if c & 0xffff >= 1 { ages.push(c - 1); } }
+        ages.sort(); ages.dedup();
+        for a in ages.into_iter().take(4) {
+            if let Some(rl) = miniscript::bitcoin::Sequence::from_consensus(a).to_relative_lock_time() {
+                let q = wire(catch_unwind(AssertUnwindSafe(|| p.clone().at_age(rl))));
+                out.line(&format!("J liftstate {} {} age:{} {}", ctx.name(), w, a, q), "ok");
+            }
+        }
+        let mut lts: Vec<u32> = vec![];
+        for n in &af { lts.push(*n); if *n > 1 { lts.push(n - 1); } }
+        lts.sort(); lts.dedup();
+        for n in lts.into_iter().take(4) {
+            let lt = miniscript::bitcoin::absolute::LockTime::from_consensus(n);
+            let q = wire(catch_unwind(AssertUnwindSafe(|| p.clone().at_lock_time(lt))));
+            out.line(&format!("J liftstate {} {} lock:{} {}", ctx.name(), w, n, q), "ok");
+        }
+    }
     true
 }
-
-/* ------------------------------------------------------------------ corpus */
 
 fn bx(n: Node) -> Box<Node> { Box::new(n) }
 
@@ -195,6 +221,9 @@ fn corpus(ctx: CtxK, thorough: bool) -> Vec<Node> {
     }
     c.extend(late_constants(ctx));
     c.extend(atom_kinds(ctx, thorough));
+    c.extend(repeated_children(ctx));
+    c.extend(insane_but_typed(ctx));
+    c.extend(sugar_towers(ctx));
     // resource-limit boundaries: wide thresholds (ops, scriptSig size, stack items)
     let wide = |n: usize, kk: usize| {
         let mut xs = vec![pk(0)];
@@ -392,6 +421,142 @@ fn atom_kinds(ctx: CtxK, thorough: bool) -> Vec<Node> {
     out
 }
 
+/// Thresholds (and and / or / andor) with REPEATED children - the same key, hash or lock several
+/// times - at k = 1, 1 < k < n, k = n, including repeats that would leave fewer than k children if
+/// somebody deduplicated them: `normalized()` must keep multiplicities.
+fn repeated_children(ctx: CtxK) -> Vec<Node> {
+    use Node::*;
+    let k = |i: u32| if ctx == CtxK::Tap { 200 + i } else { i };
+    let pk = |i: u32| Check(bx(PkK(k(i))));
+    let v = |n: Node| Verify(bx(n));
+    let lockch = |l: Node| ZeroNotEqual(bx(DupIf(bx(v(l)))));
+    let m1 = if ctx == CtxK::Tap { MultiA(1, vec![k(0), k(1)]) } else { Multi(1, vec![k(0), k(1)]) };
+    let atoms: Vec<Node> = vec![
+        pk(0), Check(bx(PkH(k(0)))), Hash(HK::Sha256, 0), Hash(HK::Hash160, 1), Hash(HK::Ripemd160, 2), Hash(HK::Hash256, 3),
+        lockch(Older(10)), lockch(After(100)), lockch(Older(4_194_305)), m1,
+    ];
+    let mut out = vec![];
+    for a in &atoms {
+        let w = Alt(bx(a.clone()));
+        for n in 2..=4usize {
+            // all children equal
+            let mut xs = vec![a.clone()];
+            for _ in 1..n { xs.push(w.clone()); }
+            for kk in 1..=n { out.push(Thresh(kk, xs.clone())); }
+            // one different child (a key) first / last: k above the number of DISTINCT children
+            let mut ys = vec![pk(1)];
+            for _ in 1..n { ys.push(w.clone()); }
+            for kk in 1..=n { out.push(Thresh(kk, ys.clone())); }
+            let mut zs = vec![a.clone()];
+            for _ in 2..n { zs.push(w.clone()); }
+            zs.push(Alt(bx(pk(1))));
+            for kk in 1..=n { out.push(Thresh(kk, zs.clone())); }
+        }
+        // two different repeated children: a a b b
+        for b in &atoms {
+            if a == b { continue; }
+            let xs = vec![a.clone(), w.clone(), Alt(bx(b.clone())), Alt(bx(b.clone()))];
+            for kk in [1usize, 2, 3, 4] { out.push(Thresh(kk, xs.clone())); }
+        }
+        // nested: the repeat appears only after the inner threshold is flattened
+        out.push(Thresh(2, vec![Thresh(1, vec![a.clone(), w.clone()]), Alt(bx(Thresh(1, vec![a.clone(), w.clone()]))), w.clone()]));
+        out.push(Thresh(3, vec![Thresh(2, vec![a.clone(), w.clone()]), Alt(bx(Thresh(2, vec![a.clone(), w.clone()]))), w.clone()]));
+        out.push(AndB(bx(a.clone()), bx(w.clone()))); out.push(OrB(bx(a.clone()), bx(w.clone())));
+        out.push(AndB(bx(AndB(bx(a.clone()), bx(w.clone()))), bx(w.clone()))); out.push(OrB(bx(OrB(bx(a.clone()), bx(w.clone()))), bx(w.clone())));
+        out.push(AndOr(bx(a.clone()), bx(a.clone()), bx(a.clone()))); out.push(OrD(bx(a.clone()), bx(a.clone()))); out.push(OrI(bx(a.clone()), bx(a.clone())));
+        out.push(AndV(bx(v(a.clone())), bx(a.clone())));
+    }
+    out
+}
+
+/// Scripts that type-check (so `from_ast` builds them and `lift` answers) but that the sanity
+/// rules refuse TODAY for exactly one reason each: one key twice in every pair of occurrence
+/// kinds (pk / pkh / multisig member) and every two-path shape; a branch without a signature;
+/// a malleable choice.  Liftable, hence judged here; the descriptor constructors refuse them
+/// today - the day a rule lets one through it is judged there too.
+fn insane_but_typed(ctx: CtxK) -> Vec<Node> {
+    use Node::*;
+    let k = |i: u32| if ctx == CtxK::Tap { 200 + i } else { i };
+    let pk = |i: u32| Check(bx(PkK(k(i))));
+    let v = |n: Node| Verify(bx(n));
+    let sha = Hash(HK::Sha256, 0);
+    let occ = |kind: usize, key: u32| -> Node {
+        match kind {
+            0 => pk(key),
+            1 => Check(bx(PkH(k(key)))),
+            _ => if ctx == CtxK::Tap { MultiA(1, vec![k(key)]) } else { Multi(1, vec![k(key)]) },
+        }
+    };
+    let mut c = vec![];
+    for kx in 0..3usize { for ky in 0..3usize {
+        let (x, y) = (occ(kx, 0), occ(ky, 0));
+        c.push(OrD(bx(x.clone()), bx(AndV(bx(v(y.clone())), bx(Older(10))))));
+        c.push(OrD(bx(x.clone()), bx(AndV(bx(v(y.clone())), bx(sha.clone())))));
+        c.push(AndOr(bx(x.clone()), bx(Older(10)), bx(y.clone())));
+        c.push(AndOr(bx(x.clone()), bx(pk(1)), bx(y.clone())));
+        c.push(OrB(bx(x.clone()), bx(Alt(bx(y.clone())))));
+        c.push(AndB(bx(x.clone()), bx(Alt(bx(y.clone())))));
+        c.push(Thresh(1, vec![x.clone(), Alt(bx(y.clone()))]));
+        c.push(Thresh(2, vec![x.clone(), Alt(bx(y.clone())), Alt(bx(pk(1)))]));
+        c.push(AndV(bx(v(pk(1))), bx(OrD(bx(x.clone()), bx(AndV(bx(v(y.clone())), bx(After(100))))))));
+        c.push(OrI(bx(AndV(bx(v(y.clone())), bx(Older(10)))), bx(x.clone())));
+        let m2 = if ctx == CtxK::Tap { MultiA(1, vec![k(1), k(0)]) } else { Multi(1, vec![k(1), k(0)]) };
+        if kx == 0 { c.push(OrD(bx(y.clone()), bx(AndV(bx(v(m2)), bx(Older(10)))))); }
+    } }
+    // sigless branches / sigless scripts
+    c.push(OrD(bx(pk(0)), bx(sha.clone()))); c.push(OrI(bx(pk(0)), bx(Older(10)))); c.push(OrB(bx(sha.clone()), bx(Alt(bx(pk(0))))));
+    c.push(sha.clone()); c.push(AndV(bx(v(sha.clone())), bx(Older(10)))); c.push(Thresh(2, vec![sha.clone(), Alt(bx(pk(0))), Alt(bx(Hash(HK::Hash160, 1)))]));
+    c.push(AndOr(bx(sha.clone()), bx(pk(0)), bx(Older(10))));
+    // malleable choices
+    c.push(OrI(bx(pk(0)), bx(pk(1)))); c.push(OrD(bx(sha.clone()), bx(pk(0)))); c.push(AndOr(bx(sha.clone()), bx(pk(0)), bx(pk(1))));
+    c.push(OrB(bx(sha.clone()), bx(Alt(bx(Hash(HK::Sha256, 1))))));
+    c
+}
+
+/// syntactic sugar and casts under combinators: `t:X` = and_v(X,1), `l:X` = or_i(0,X),
+/// `u:X` = or_i(X,0), `and_n(X,Y)` = andor(X,Y,0), towers of them and wrappers over them, in
+/// every position of and / or / andor / thresh
+fn sugar_towers(ctx: CtxK) -> Vec<Node> {
+    use Node::*;
+    let k = |i: u32| if ctx == CtxK::Tap { 200 + i } else { i };
+    let pk = |i: u32| Check(bx(PkK(k(i))));
+    let v = |n: Node| Verify(bx(n));
+    let t = |x: Node| AndV(bx(x), bx(True));
+    let l = |x: Node| OrI(bx(False), bx(x));
+    let u = |x: Node| OrI(bx(x), bx(False));
+    let and_n = |x: Node, y: Node| AndOr(bx(x), bx(y), bx(False));
+    let m1 = if ctx == CtxK::Tap { MultiA(2, vec![k(2), k(3)]) } else { Multi(2, vec![k(2), k(3)]) };
+    let base: Vec<Node> = vec![pk(0), Hash(HK::Sha256, 0), Older(10), After(100), m1];
+    let mut casts: Vec<Node> = vec![];
+    for x in &base {
+        casts.push(t(v(x.clone()))); casts.push(l(x.clone())); casts.push(u(x.clone()));
+        casts.push(l(u(x.clone()))); casts.push(u(l(x.clone()))); casts.push(l(l(x.clone()))); casts.push(u(t(v(x.clone()))));
+        casts.push(l(t(v(x.clone())))); casts.push(t(v(l(x.clone())))); casts.push(t(v(u(x.clone()))));
+        casts.push(ZeroNotEqual(bx(l(x.clone())))); casts.push(ZeroNotEqual(bx(u(x.clone())))); casts.push(DupIf(bx(v(l(x.clone())))));
+        casts.push(NonZero(bx(u(x.clone())))); casts.push(l(ZeroNotEqual(bx(x.clone()))));
+        for y in base.iter().take(3) {
+            casts.push(and_n(x.clone(), y.clone()));
+            casts.push(and_n(u(x.clone()), t(v(y.clone()))));
+            casts.push(l(and_n(x.clone(), y.clone()))); casts.push(t(v(and_n(x.clone(), y.clone()))));
+            casts.push(and_n(and_n(x.clone(), y.clone()), pk(1)));
+            casts.push(AndOr(bx(x.clone()), bx(l(y.clone())), bx(u(pk(1)))));
+        }
+    }
+    let mut out = vec![];
+    for c in &casts {
+        out.push(c.clone());
+        let a = Alt(bx(c.clone()));
+        out.push(AndV(bx(v(c.clone())), bx(pk(1)))); out.push(AndV(bx(v(pk(1))), bx(c.clone())));
+        out.push(AndB(bx(pk(1)), bx(a.clone()))); out.push(OrB(bx(pk(1)), bx(a.clone()))); out.push(OrB(bx(c.clone()), bx(Alt(bx(pk(1))))));
+        out.push(OrD(bx(c.clone()), bx(pk(1)))); out.push(OrD(bx(pk(1)), bx(c.clone()))); out.push(OrI(bx(c.clone()), bx(pk(1))));
+        out.push(AndOr(bx(c.clone()), bx(pk(1)), bx(pk(2)))); out.push(AndOr(bx(pk(1)), bx(c.clone()), bx(pk(2)))); out.push(AndOr(bx(pk(1)), bx(pk(2)), bx(c.clone())));
+        out.push(AndV(bx(OrC(bx(c.clone()), bx(v(pk(1))))), bx(True)));
+        out.push(Thresh(2, vec![pk(1), a.clone(), Alt(bx(pk(2)))]));
+        for kk in [1usize, 3] { out.push(Thresh(kk, vec![c.clone(), Alt(bx(pk(1))), a.clone()])); }
+    }
+    out
+}
+
 /// Legacy thresholds whose maximal scriptSig (satisfaction pushes + redeem script + its push
 /// opcode, as `check_local_policy_validity` counts it) is EXACTLY 1650 (accepted) and 1651 (refused):
 /// searched over mixes of pk_h (compressed / uncompressed), pk_k and hash children and `l:`
@@ -523,6 +688,48 @@ fn desc_lines<Pk: HKey>(out: &mut Out, kind: &str, args: &str, d: Result<Descrip
     out.count(&format!("liftdesc {} {}", kind, if ans.starts_with("ERR:") { ans.as_str() } else { answer_class(&ans) }));
     out.line(&format!("C liftdesc {} {}", kind, args), &ans);
     out.line(&format!("J liftdesc-sem {} {} {}", kind, args, ans), "ok");
+    // the inner type's own `lift` (Descriptor::lift only dispatches to it)
+    let inner = lift_answer(catch_unwind(AssertUnwindSafe(|| match &d {
+        Descriptor::Bare(x) => x.lift(), Descriptor::Pkh(x) => x.lift(), Descriptor::Wpkh(x) => x.lift(),
+        Descriptor::Wsh(x) => x.lift(), Descriptor::Sh(x) => x.lift(), Descriptor::Tr(x) => x.lift(),
+    })));
+    out.line(&format!("C liftdesc {} {}", kind, args), &inner);
+    // (an answer equal to the fresh one has just been judged; a DIFFERENT one is judged itself)
+    if inner != ans { out.line(&format!("J liftdesc-sem {} {} {}", kind, args, inner), "ok"); }
+    // a USED object: script pubkey computed (fills the taproot spend-info cache), then cloned
+    let used = lift_answer(catch_unwind(AssertUnwindSafe(|| {
+        let _ = d.script_pubkey();
+        if let Descriptor::Tr(t) = &d { let _ = t.spend_info(); }
+        let d2 = d.clone();
+        let first = d.lift();
+        let second = d2.lift();
+        match (&first, &second) { (Ok(a), Ok(b)) if a != b => Err(miniscript::Error::Unexpected("used and cloned object lift differently".into())), _ => first }
+    })));
+    out.line(&format!("C liftdesc {} {}", kind, args), &used);
+    if used != ans { out.line(&format!("J liftdesc-sem {} {} {}", kind, args, used), "ok"); }
+}
+
+/// Every descriptor wrapper over the WHOLE designated corpus of its context (whatever the
+/// constructor accepts): wsh and sh(wsh) over Segwitv0, sh over Legacy, bare over Bare, and
+/// tr / TapTree with the fragment as the only leaf over Tap.
+fn wrapper_routes(out: &mut Out, designated: &[(CtxK, Vec<Node>)]) {
+    for (ctx, nodes) in designated {
+        for n in nodes {
+            match ctx {
+                CtxK::Segwitv0 => if let Ok(ms) = ast::to_ms::<PublicKey, Segwitv0>(n) {
+                    desc_lines(out, "wsh", &n.wire(), Descriptor::new_wsh(ms.clone()));
+                    desc_lines(out, "shwsh", &n.wire(), Descriptor::new_sh_wsh(ms));
+                },
+                CtxK::Legacy => if let Ok(ms) = ast::to_ms::<PublicKey, Legacy>(n) { desc_lines(out, "sh", &n.wire(), Descriptor::new_sh(ms)); },
+                CtxK::Bare => if let Ok(ms) = ast::to_ms::<PublicKey, BareCtx>(n) { desc_lines(out, "bare", &n.wire(), Descriptor::new_bare(ms)); },
+                CtxK::Tap => if let Ok(ms) = ast::to_ms::<XOnlyPublicKey, Tap>(n) {
+                    let tree = TapTree::leaf(ms);
+                    tree_lines(out, std::slice::from_ref(n), &tree);
+                    desc_lines(out, "tr", &format!("209 {}", n.wire()), Descriptor::<XOnlyPublicKey>::new_tr(ast::xonly_key(209), Some(tree)));
+                },
+            }
+        }
+    }
 }
 
 /// wire form of a lifted policy over ANY key type, keys named by `kid` (hashes are not used by
@@ -823,6 +1030,8 @@ fn compile_lines(out: &mut Out, thorough: bool, rng: &mut Rng) {
                 }
             }
         };
+        // Concrete::lift itself (the policy must mean what it says)
+        one(out, "concrete", Some(catch_unwind(AssertUnwindSafe(|| pol.lift()))));
         macro_rules! ms_target { ($ctx:ty, $name:expr) => {{
             let compiled = catch_unwind(AssertUnwindSafe(|| pol.compile::<$ctx>())).ok().and_then(|r| r.ok());
             one(out, $name, compiled.map(|ms| catch_unwind(AssertUnwindSafe(|| ms.lift()))));
@@ -852,6 +1061,7 @@ pub fn run(out: &mut Out, thorough: bool, seed: u64) {
     msops::emit_sig_defs(out);
     let mut n_frag = 0u64;
     let mut pools: Vec<(CtxK, Vec<Node>)> = vec![];
+    let mut designated_all: Vec<(CtxK, Vec<Node>)> = vec![];
     for ctx in CtxK::ALL {
         let atoms = ast::default_atoms(ctx, !thorough);
         let mut nodes: Vec<Node> = ast::enumerate(ctx, &atoms, if thorough { 4 } else { 3 }, if thorough { 160 } else { 40 }, &mut rng)
@@ -879,18 +1089,23 @@ pub fn run(out: &mut Out, thorough: bool, seed: u64) {
                 v.into_iter().enumerate().filter(|(i, n)| i % 4 == 0 || dim.contains(n)).map(|(_, n)| n).collect()
             }
         };
+        let mut designated: Vec<Node> = corp.clone();
+        designated.sort(); designated.dedup();
         nodes.extend(corp);
         nodes.sort(); nodes.dedup();
         out.note(&format!("fragments_{}", ctx.name()), format!("{} distinct ({} enumerated+random, {} corpus entries)", nodes.len(), enumerated, n_corp));
+        let designated_set: std::collections::BTreeSet<Node> = designated.iter().cloned().collect();
         let mut accepted = vec![];
         for node in nodes {
-            if with_ctx!(ctx, one_ms(out, ctx, &node)) {
+            let states = designated_set.contains(&node);
+            if with_ctx!(ctx, one_ms(out, ctx, &node, states)) {
                 n_frag += 1;
                 node.count_frags(out);
                 if node.size() <= 40 { accepted.push(node); }
             }
         }
         pools.push((ctx, accepted));
+        designated_all.push((ctx, designated));
         for node in &route_nodes {
             match ctx {
                 CtxK::Bare => other_routes_pk::<BareCtx>(out, ctx, node),
@@ -911,8 +1126,9 @@ pub fn run(out: &mut Out, thorough: bool, seed: u64) {
         }
     }
     descriptors(out, thorough, &mut rng, &pools);
+    wrapper_routes(out, &designated_all);
     compile_lines(out, thorough, &mut rng);
     out.note("distinct_nontrivial", n_frag.to_string());
-    out.note("domain", "B-typed fragments of every context (enumerated depth 3/4 + richer alphabet depth 2, random to ~60 nodes, corpus: andor arms, constants in or_i/and_v/thresh, nested thresholds every k, repeated keys, sorted/unsorted multi, both lock units in AND and OR position, raw pkh, resource-limit boundaries) and descriptors (pkh, wpkh, sh(wpkh), bare, wsh, sh, sh(wsh), tr with 0-4(6) leaves in random tree shapes incl. constant/refused leaves and a repeated internal key); judged over all subsets of <=5 keys and <=3 preimages x (nLockTime,nSequence) on both sides of every lock".into());
+    out.note("domain", "B-typed fragments of every context (enumerated depth 3/4 + richer alphabet depth 2, random to ~60 nodes, corpus: andor arms, constants in or_i/and_v/thresh, nested thresholds every k, repeated keys, sorted/unsorted multi, both lock units in AND and OR position, raw pkh, resource-limit boundaries) and descriptors (pkh, wpkh, sh(wpkh), bare, wsh, sh, sh(wsh), tr with 0-4(6) leaves in random tree shapes incl. constant/refused leaves and a repeated internal key); judged over all subsets of <=5 keys and <=3 preimages x (nLockTime,nSequence) on both sides of every lock. ROUTES over the whole designated corpus (hand corpus + dimension corpus incl. wrapper towers + repeated-children / insane-but-typed / sugar-tower corpora): Miniscript::lift; Descriptor::lift through wsh, sh(wsh), sh, bare and tr / TapTree with the fragment as only leaf (whatever the constructor accepts); the inner type's own lift and a USED (script_pubkey + spend_info computed, cloned) object; the lifted policy after normalized() / at_age / at_lock_time (J liftstate); parsed and decoded routes; Concrete::lift and lift(compile(p))".into());
     std::panic::set_hook(hook);
 }
